@@ -1,6 +1,8 @@
 """C11 bounded stand-in (engine B): MDL V2000 / V3000 and MRV files - write then read preserves the record; damaged records are
 skipped without losing the following ones; index access = sequential access; the repository's test files and RDKit-written
-molblocks are read.  Contracts are attached to the real writers / readers (DESIGN §2 C11); never counted as proof."""
+molblocks are read.  Audit extension (parts 8): the same contracts under every non-default writer / reader keyword, for every way of handing a
+file to a writer / reader and every public reading entry point, and for spec-equivalent re-spellings / hand-written records with the features
+only other programs write (oracles/o11_foreign.py).  Contracts are attached to the real writers / readers (DESIGN §2 C11); never counted as proof."""
 import io
 import os
 import shutil
@@ -12,7 +14,9 @@ from vlib.report import pmap
 
 RULE = ('distinct non-trivial = distinct (writer->reader pair, canonical structure [+ form]) with >= 2 atoms for round trips; distinct '
         '(pair, metadata class, text) for titles/metadata; distinct (pair, damage kind, line kind) for damaged multi-record files; '
-        'distinct (file, reader options) for test files; distinct (version, RDKit canonical SMILES) for RDKit-written molblocks')
+        'distinct (file, reader options) for test files; distinct (version, RDKit canonical SMILES) for RDKit-written molblocks; distinct (option, '
+        'numbering, canonical structure / reaction) under non-default options; distinct (pair, record type) for file kinds / entry points; distinct '
+        '(molecule | file | hand-written record) for records as other programs spell them')
 
 ION = ['[Fe+4]', '[Ti+4]', '[Zr+4]', '[Pb+4]', '[C-4]', '[Si-4]', '[Fe+3]', '[Al+3]', '[N-3]', '[P-3]', '[O-2]', '[S-2]', '[Ca+2]',
        '[Mg+2]', '[Na+]', '[K+]', '[Cl-]', '[Br-]', '[NH4+]', '[OH-]', '[57Fe+4]', '[37Cl-]', '[6Li+]', '[13C-4]']
@@ -27,6 +31,21 @@ STEREO = ['C[C@H](O)CC', 'C[C@@H](O)CC', 'C[C@](N)(O)CC', 'N[C@@H](C)C(=O)O', 'C
           # centres that are stereogenic only once their neighbours carry labels (pseudo-asymmetric / dependent): the reader has to retry them
           'C[C@H](O)[C@@H](O)[C@H](O)C', 'C[C@H](O)[C@H](O)[C@H](O)C', 'C[C@H](Cl)[C@H](O)[C@@H](Cl)C', 'C[C@H](O)[C@@H](F)[C@H](O)C',
           'C[C@H]1C[C@@H](C)C[C@H](O)C1', 'C[C@H](O)[C@@H](O)[C@H](O)[C@@H](O)[C@H](O)C', 'C[C@@H](N)[C@H](C)[C@@H](N)C']
+
+# audit extension: input classes the lists above do not contain
+STEREO2 = [  # tri- / tetra-substituted allenes (4 wedge candidates); a centre all of whose neighbours are centres; ring-attached and ring-linking
+             # cumulenes; spiro centres (with heteroatoms); cis/trans in large rings; bridged / fused ring centres; 2- and 4-neighbour centres with
+             # halogens; charged / radical / isotope-labelled neighbours of a centre; three-membered rings; branched dienes
+    'CC(F)=[C@]=C(C)Cl', 'CC(F)=[C@@]=C(C)Cl', 'CC=[C@]=C(C)Cl', 'C[C@H](F)C(C)=[C@@]=CCl', '[C@H]([C@H](C)O)([C@H](C)N)[C@H](C)F',
+    'C[C@@]([C@H](C)O)([C@H](C)N)[C@@H](C)F', 'C[C@H]1CC/C(=C\\C)CC1', 'C[C@H]1CCC(=C=C2CC[C@@H](C)CC2)CC1', 'C[C@H]1CC[C@@]2(CC1)CC[C@H](C)CC2',
+    'C1C[C@]2(CCO1)CCOC2', 'C[C@H]1C[C@]2(C1)C[C@@H](C)C2', 'C1CCCC/C=C/CCCC1', 'C1CCCC/C=C\\CCCC1', 'C/C=C/C=C/C=C\\C',
+    'C[C@H](O)[C@@H](O)/C=C/[C@H](O)[C@@H](O)C', 'O[C@H]1C[C@@H]2CC[C@H]1C2', 'C[C@]12CC[C@H]3[C@@H](CCc4cc(O)ccc34)[C@@H]1CC[C@@H]2O',
+    'F[C@H](Cl)Br', 'F[C@](Cl)(Br)I', '[O-][C@H](F)Cl', 'C[C@H]([NH3+])C([O-])=O', '[13CH3][C@H](O)C', 'C[C@H](O)[CH2]', 'C[C@H]([O])CC',
+    'N[C@H](C)[C@@H](C)N', 'C[C@H](O)[C@H](C)O', 'C[C@H]1O[C@@H]1C', 'C[C@H]1[C@@H](C)[C@H]1C', 'C(=C/C)\\C=C\\C', 'C/C(F)=C(\\C)F']
+MISC2 = ['[O][O-]', '[CH2+][CH2]', 'C[N+]([O-])=O', 'C=[N+]=[N-]', '[H][H]', '[2H][2H]', '[H]O[H]', '[3H]C', '[2H]C([2H])([2H])O[2H]', '[15NH2][13CH2][14CH2][18OH]',
+         '[13CH3][17OH]', '[33SH2]', '[18F-]', '[32PH3]', '[H+]', '[H-]', '[2H+]', '[He]', '[Fe]', '[U+4]', '[O-][Cl+3]([O-])([O-])[O-]']
+# atom counts at the column-width boundaries of the fixed-column format (no layout: constitution only)
+BIG = ['C' * 99 + 'O', 'C' * 100 + '[NH3+]', '[13CH3]' + 'C' * 997 + '[O-]', 'C' * 500 + '.' + '[Na+].[Cl-].' * 100 + '[CH3]', '[14CH3]' + 'C' * 1198 + '[O-]']
 
 
 # ---------------------------------------------------------------------------------------------------------------- plumbing
@@ -97,6 +116,8 @@ def build(s, form, offset=None):
             a.xy = (float(x) * .55, float(y) * .55)
         m.flush_cache()
         ok2d = True
+    elif form == 'kekule-nolayout':    # all coordinates 0: no 2D coordinates present, configuration outside the claim
+        ok2d = False
     else:
         random.seed(f'{env.SEED}:{s}')     # clean2d draws its atom order from the global generator
         try:
@@ -116,6 +137,29 @@ def build(s, form, offset=None):
 
 
 GAP_HITS = [0]      # per worker process: string differences inside C01's documented gap with all labels preserved (counted, not judged)
+
+
+class LibError(Exception):
+    """the library raised inside one of its anchored functions while the harness prepared a case: carries the violation"""
+
+
+def degenerate(O, m, tag, wit):
+    """O.degenerate_depiction, which evaluates the library's _wedge_map: an exception raised there for a valid labelled molecule is the
+    writers' failure (they all start from _wedge_map), not the harness's"""
+    try:
+        return O.degenerate_depiction(m)
+    except Exception as e:
+        if not any('/chython/' in f.filename for f in traceback.extract_tb(e.__traceback__)):
+            raise
+        raise LibError(V('rt:wedge-map:exc', f'rt:wedge-map:exc:{where(e)}:{tag}', f'_wedge_map: {where(e)} on a valid labelled molecule ({tag})', wit, repr(e)))
+
+
+def _norm_str(m):
+    from bounded import domains as D
+    try:
+        return str(D.norm(m.copy()))
+    except Exception:
+        return str(m)
 
 
 def cmp_mol(O, m, o, stereo, tag):
@@ -138,7 +182,9 @@ def cmp_mol(O, m, o, stereo, tag):
         for k, nm in (('th', 'tetrahedral'), ('al', 'allene'), ('ct', 'cis-trans')):
             if es[k] != gs[k]:
                 out.append((nm, es[k], gs[k]))
-        if str(e) != str(o):
+        if str(e) != str(o) and _norm_str(e) != _norm_str(o):
+            # (a Kekule ring system prints differently for another bond insertion order, 'C1=CC=CC=C1' / 'C=1C=CC=CC=1': both sides are compared in
+            # the aromaticity normal form, bounded/README lesson 1)
             # every atom, bond and per-centre configuration already agrees at this point: a differing canonical STRING is then C01's business.
             # Inside C01's documented gap (configuration on centres with constitutionally equivalent substituents) it is excused and counted.
             same_labels = all(es[k] == gs[k] for k in ('th', 'al', 'ct'))
@@ -176,7 +222,7 @@ def check_mol_obj(O, m, ok2d, a, pairs=None):
     if claimed and O.explicit_h_on_stereocentre(m):
         claimed = False
         info['filtered_explicit_h'] = 1
-    if claimed and O.has_labels(m) and O.degenerate_depiction(m):
+    if claimed and O.has_labels(m) and degenerate(O, m, tag, {'replay': 'check_mol', 'args': a}):
         claimed = False
         info['degenerate_2d'] = 1
     if claimed and O.has_labels(m):
@@ -234,7 +280,9 @@ def text_violations(O, m, o, pair, wit):
     """title / metadata differences, keyed by (format, diagnosis): one finding per root cause, smallest witness"""
     out, fmt = [], P()[pair][2]
     if O.norm_title(o.name) != O.norm_title(m.name):
-        out.append(V(f'title:{fmt}:changed', f'title:{fmt}:changed', f'{pair}: title not preserved: written {m.name!r}, read {o.name!r}', wit, o.name))
+        # independent predicate on the input: an MRV title holding one of the characters XML reserves inside an attribute value
+        k = f'title:{fmt}:xml-special-character:changed' if fmt == 'mrv' and any(c in (m.name or '') for c in '"<&') else f'title:{fmt}:changed'
+        out.append(V(k, k, f'{pair}: title not preserved: written {m.name!r}, read {o.name!r}', wit, o.name))
     e, g = O.norm_meta(m.meta), O.norm_meta(o.meta)
     if e != g:
         d = diagnose(e, g)
@@ -259,7 +307,11 @@ def w_mols(items):
         if binfo.get('rdkit2d_unavailable'):
             continue
         a = {'smiles': s, 'form': form, 'offset': off, 'title': f'rec {len(s)}', 'meta': {'source': s, 'note': 'line one\nline two'}}
-        v, info = check_mol_obj(O, m, ok2d, a)
+        try:
+            v, info = check_mol_obj(O, m, ok2d, a)
+        except LibError as e:
+            vs.append(e.args[0])
+            continue
         vs.extend(v)
         for k in info:
             st[k] += info[k]
@@ -852,6 +904,587 @@ def w_rdkit(items):
     return n, keys, samples, vs, st
 
 
+# --------------------------------------------------------------------------- audit extension 1: options of writers and readers
+
+OPTS = {  # name: (writer keywords, reader keywords, atom numbers: 'same' | 'positional', configuration kept, MDL readers only)
+    'writer mapping=False': ({'mapping': False}, {}, 'positional', True, False),
+    'reader remap=True': ({}, {'remap': True}, 'positional', True, False),
+    'reader ignore=False': ({}, {'ignore': False}, 'same', True, False),
+    'reader remap=True ignore=False': ({}, {'remap': True, 'ignore': False}, 'positional', True, False),
+    'reader ignore_stereo=True': ({}, {'ignore_stereo': True}, 'same', False, False),
+    'reader ignore_bad_isotopes=True': ({}, {'ignore_bad_isotopes': True}, 'same', True, False),
+    'reader buffer_size=record length': ({}, {'buffer_size': None}, 'same', True, True),    # the number of lines of the written file
+}
+
+
+def renumbered(m, mp):
+    c = m.copy()
+    c.remap(mp)
+    return c
+
+
+def _claimed(O, m, form, ok2d, tag='', wit=None):
+    return form.startswith('kekule') and ok2d and not O.explicit_h_on_stereocentre(m) and not (O.has_labels(m) and degenerate(O, m, tag, wit))
+
+
+def check_opt_mol(a):
+    """a: {'smiles','form','offset','opt'[, 'pair']}: the round-trip contract under one non-default writer / reader option.
+    'positional': the option asks for atom numbers 1..N in file order (writer without mapping column / reader remap), everything
+    else - order, elements, isotopes, charges, radicals, bonds, configuration - is compared after renumbering the written molecule so."""
+    from oracles import o11_records as O
+    from chython.files import mdl_mol
+    m, ok2d, _ = build(a['smiles'], a['form'], a.get('offset'))
+    wkw, rkw, numbering, keep, mdl_only = OPTS[a['opt']]
+    m.name = 'record'
+    m.meta.clear()
+    m.meta['k'] = 'v'
+    claimed = _claimed(O, m, a['form'], ok2d, a['smiles'], {'replay': 'check_opt_mol', 'args': a})
+    exp = m
+    if numbering == 'positional':
+        exp = renumbered(m, {n: i for i, n in enumerate(m, 1)})
+        exp.name = m.name
+        exp.meta.update(m.meta)
+    tag = f'{a["smiles"]}|{a["form"]}' + (f'|+{a["offset"]}' if a.get('offset') is not None else '')
+    vs, n = [], 0
+    for pair, spec in P().items():
+        if a.get('pair') not in (None, pair) or mdl_only and spec[2] == 'mrv':
+            continue
+        if max(m) > 999 and pair in ('SDFWrite>SDFRead', 'RDFWrite>RDFRead'):
+            continue
+        fam = f'opt:{a["opt"]}:{pair}'
+        wit = {'replay': 'check_opt_mol', 'args': {**a, 'pair': pair}}
+        n += 1
+        try:
+            text = write(pair, [m], **wkw)
+            if 'buffer_size' in rkw:
+                rkw = {'buffer_size': text.count('\n')}
+            got = list(reader(pair, text, **rkw))
+        except Exception as e:
+            vs.append(V(f'{fam}:exc', f'{fam}:exc:{where(e)}:{tag}', f'{pair} ({a["opt"]}): {where(e)} on a valid molecule {a["smiles"]}', wit, repr(e)))
+            continue
+        if len(got) != 1:
+            vs.append(V(f'{fam}:count', f'{fam}:count:{tag}', f'{pair} ({a["opt"]}): one record written, {len(got)} read back ({a["smiles"]})', wit, len(got)))
+            continue
+        todo = [(pair, got[0])]
+        if spec[2] == 'sdf':
+            try:
+                todo.append(('mdl_mol', mdl_mol(text[:text.index('M  END') + 7], calc_cis_trans=True, **{k: v for k, v in rkw.items() if k != 'buffer_size'})))
+            except Exception as e:
+                vs.append(V(f'{fam}:mdl_mol:exc', f'{fam}:mdl_mol:exc:{where(e)}:{tag}', f'{pair[:pair.index(">")]} -> mdl_mol ({a["opt"]}): {where(e)} on {a["smiles"]}', wit, repr(e)))
+        for via, o in todo:
+            f2 = fam if via == pair else f'{fam}:mdl_mol'
+            if not keep and O.has_labels(o):
+                vs.append(V(f'{f2}:labels', f'{f2}:labels:{tag}', f'{via} ({a["opt"]}): configuration labels read although the option asks to ignore them ({a["smiles"]})',
+                            wit, O.stereo_snap(o)))
+            d = cmp_mol(O, exp, o, claimed and keep, a)
+            if d and rkw.get('remap') and list(m) != list(exp) and not cmp_mol(O, m, o, claimed and keep, a):
+                # independent predicate: option remap given, written numbers are not 1..N in file order, and the record comes back exactly as without the option
+                k = f'opt:remap-ignored:{via.split(">")[-1]}:molecule-record'
+                vs.append(V(k, k, f'{via} ({a["opt"]}): the option is ignored for a molecule record: atom numbers {list(m)} of {a["smiles"]} are read back unchanged, '
+                               f'not as 1..{len(m)} ("remap: Remap atom numbers started from one")', wit, list(o)))
+                d = []
+            for field, e, g in d:
+                vs.append(V(f'{f2}:{field}', f'{f2}:{field}:{tag}', f'{via} ({a["opt"]}): {field} not preserved for {a["smiles"]} ({a["form"]}): written {e!r}, read {g!r}',
+                            wit, {'expected': e, 'got': g}))
+        vs.extend(text_violations(O, m, got[0], pair, wit))
+    return vs, n, str(m)
+
+
+def _induced(O, em, gm, st, a):
+    """differences between a written molecule and the read one modulo the renumbering by position"""
+    if len(em) != len(gm):
+        return [('atom-count', len(em), len(gm))]
+    if len(set(gm)) != len(gm):
+        return [('atom-number', 'unique numbers', list(gm))]
+    return cmp_mol(O, renumbered(em, dict(zip(em, gm))), gm, st, a)
+
+
+def check_opt_rxn(a):
+    """a: check_rxn's arguments + 'opt'.  'positional' for a reaction: every molecule equal modulo renumbering by position; for the
+    reader option remap additionally the atom-to-atom mapping is preserved (written number -> read number is one injective function
+    over the whole reaction) and the numbers start from one, as the option documents"""
+    from oracles import o11_records as O
+    from chython import ReactionContainer
+    from chython.files import mdl_rxn
+    rx, ok2d = build_rxn(a)
+    wkw, rkw, numbering, keep, mdl_only = OPTS[a['opt']]
+    tag = f'{".".join(a["smiles"])}|{a["counts"]}|{a["seed"]}'
+    top = max(max(m) for m in rx.molecules())
+    vs, n = [], 0
+    for pair, spec in P().items():
+        if not spec[4] or a.get('pair') not in (None, pair) or mdl_only and spec[2] == 'mrv' or top > 999 and pair == 'RDFWrite>RDFRead':
+            continue
+        fam = f'opt:{a["opt"]}:rx:{pair}'
+        wit = {'replay': 'check_opt_rxn', 'args': {**a, 'pair': pair}}
+        n += 1
+        try:
+            w = rx.copy()
+            text = write(pair, [w], **wkw)
+            if 'buffer_size' in rkw:
+                rkw = {'buffer_size': text.count('\n')}
+            got = list(reader(pair, text, **rkw))
+        except Exception as e:
+            vs.append(V(f'{fam}:exc', f'{fam}:exc:{where(e)}:{tag}', f'{pair} ({a["opt"]}): {where(e)} on a valid reaction {tag}', wit, repr(e)))
+            continue
+        if len(got) != 1:
+            vs.append(V(f'{fam}:count', f'{fam}:count:{tag}', f'{pair} ({a["opt"]}): one reaction written, {len(got)} read back ({tag})', wit, len(got)))
+            continue
+        todo = [(pair, got[0])]
+        if spec[2] == 'rdf':
+            block = text[text.index('$RXN'):]
+            block = block[:block.index('$DTYPE')] if '$DTYPE' in block else block
+            try:
+                todo.append(('mdl_rxn', mdl_rxn(block, calc_cis_trans=True, **{k: v for k, v in rkw.items() if k != 'buffer_size'})))
+            except Exception as e:
+                vs.append(V(f'{fam}:mdl_rxn:exc', f'{fam}:mdl_rxn:exc:{where(e)}:{tag}', f'{pair[:pair.index(">")]} -> mdl_rxn ({a["opt"]}): {where(e)} on {tag}', wit, repr(e)))
+        vs.extend(text_violations(O, rx, got[0], pair, wit))
+        for via, o in todo:
+            f2 = fam if via == pair else f'{fam}:mdl_rxn'
+            if numbering == 'same':
+                d = cmp_rxn(O, w, o, ok2d and keep, a)
+            elif not isinstance(o, ReactionContainer):
+                d = [('record-type', 'reaction', type(o).__name__)]
+            else:
+                d = [(f'role-count-{role}', len(getattr(w, role)), len(getattr(o, role))) for role in ('reactants', 'reagents', 'products')
+                     if len(getattr(w, role)) != len(getattr(o, role))]
+                fwd, bwd = {}, {}
+                for role in () if d else ('reactants', 'reagents', 'products'):
+                    for i, (em, gm) in enumerate(zip(getattr(w, role), getattr(o, role))):
+                        st = ok2d and keep and not O.explicit_h_on_stereocentre(em) and not (O.has_labels(em) and O.degenerate_depiction(em))
+                        d.extend((f, f'{role}[{i}] {e}', g) for f, e, g in _induced(O, em, gm, st, a))
+                        if rkw.get('remap') and len(em) == len(gm):
+                            for x, y in zip(em, gm):
+                                f_, b_ = fwd.setdefault(x, y), bwd.setdefault(y, x)
+                                if f_ != y or b_ != x:
+                                    d.append(('atom-to-atom-mapping', f'{role}[{i}] atom {x} <-> {f_}', f'{y} (also given to atom {b_})'))
+                if rkw.get('remap') and not d and min(bwd) != 1:
+                    d.append(('numbers-start-from-one', 1, min(bwd)))
+            if not keep and isinstance(o, ReactionContainer) and any(O.has_labels(x) for x in o.molecules()):
+                d.append(('labels', 'none (ignore_stereo)', [O.stereo_snap(x) for x in o.molecules()]))
+            for field, e, g in d[:6]:
+                vs.append(V(f'{f2}:{field}', f'{f2}:{field}:{tag}', f'{via} ({a["opt"]}): reaction {field} not preserved ({tag}): written {e!r}, read {g!r}', wit,
+                            {'expected': e, 'got': g}))
+    return vs, n, format(rx)
+
+
+def w_opts(items):
+    """worker: list of ('mol', smiles, form, offset, opt) | ('rxn', check_rxn arguments, opt)"""
+    env.setup()
+    n, keys, samples, vs = 0, [], [], []
+    for kind, *x in items:
+        if kind == 'mol':
+            s, form, off, opt = x
+            try:
+                build(s, form, off)
+            except Exception:
+                continue       # not a molecule of the library
+            try:
+                v, c, cs = check_opt_mol({'smiles': s, 'form': form, 'offset': off, 'opt': opt})
+            except LibError as e:
+                vs.append(e.args[0])
+                continue
+        else:
+            a, opt = x
+            v, c, cs = check_opt_rxn({**a, 'opt': opt})
+        vs.extend(v)
+        n += c
+        keys.append(f'opt|{kind}|{opt}|{x[1] if kind == "mol" else a["counts"]}|{cs}')
+        if len(samples) < 1:
+            samples.append({'contract': 'write->read under a non-default writer / reader option', 'option': opt, 'object': cs})
+    return n, keys, samples, vs, {}
+
+
+# ------------------------------------------------------ audit extension 2: file kinds and reading entry points (call sequences)
+
+def api_objects(obj):
+    """5 fixed records whose titles / metadata key sets DIFFER: record 1 has no metadata, record 2 a key of its own, record 3 no title"""
+    objs = multi_objects({'obj': obj, 'n': 5, 'seed': 'fixed', 'fixed': True})
+    objs[1].meta.clear()
+    objs[2].meta.clear()
+    objs[2].meta['other'] = 'only here'
+    objs[3].name = ''
+    return objs
+
+
+def _mol_sig(O, m):
+    return repr(O.snap(m)), O.norm_title(m.name)
+
+
+def check_api(a):
+    """a: {'pair','obj'}: every way of handing a file to the writer / reader and every public reading entry point gives the records
+    that plain iteration over an in-memory file gives (and those carry the written titles / metadata, record by record)"""
+    import fileinput
+    from pathlib import Path
+    from oracles import o11_records as O
+    from chython import ReactionContainer
+    from chython.files import mdl_mol, mdl_rxn
+    pair = a['pair']
+    W, R, fmt, *_ = P()[pair]
+    mrv = fmt == 'mrv'
+    wit = {'replay': 'check_api', 'args': a}
+    objs = api_objects(a['obj'])
+    vs, n = [], [0]
+
+    def bad(what, text, native=None):
+        vs.append(V(f'api:{pair}:{what}', f'api:{pair}:{a["obj"]}:{what}', f'{pair} ({a["obj"]} records): {text}', wit, native))
+
+    def attempt(what, fn):
+        """run one access path; a library exception is a violation keyed by its place"""
+        n[0] += 1
+        try:
+            return fn()
+        except Exception as e:
+            if not any('/chython/' in f.filename for f in traceback.extract_tb(e.__traceback__)):
+                raise       # an error of this harness, not of the library
+            vs.append(V(f'api:{pair}:{what}:exc', f'api:{pair}:{a["obj"]}:{what}:exc:{where(e)}', f'{pair} ({a["obj"]} records), {what}: {where(e)}', wit, repr(e)))
+            return None
+
+    text = write(pair, [x.copy() for x in objs])
+    got = list(reader(pair, text))
+    if len(got) != len(objs):
+        bad('count', f'{len(objs)} records written, {len(got)} read')
+        return vs, n[0]
+    for o, g in zip(objs, got):
+        vs.extend(text_violations(O, o, g, pair, wit))
+    seq = [rec_sig(O, x) for x in got]
+    d = tempfile.mkdtemp(prefix='b11-api-')
+    caches = []
+    try:
+        def sigs_of(path):
+            with open(path) as f:
+                return read_all(pair, f.read())
+
+        # ---- writers: str path, Path, open handle, append
+        def w_to(target, items, **kw):
+            with W(target, **kw) as w:
+                for x in items:
+                    w.write(x.copy())
+        p = os.path.join(d, 'w1.' + fmt)
+        if attempt('writer(str path)', lambda: w_to(p, objs) or True) and sigs_of(p) != seq:
+            bad('writer(str path)', 'records differ from the ones written to an in-memory file')
+        p2 = os.path.join(d, 'w2.' + fmt)
+        if attempt('writer(Path)', lambda: w_to(Path(p2), objs) or True) and sigs_of(p2) != seq:
+            bad('writer(Path)', 'records differ from the ones written to an in-memory file')
+        p3 = os.path.join(d, 'w3.' + fmt)
+        with open(p3, 'w') as fh:
+            r3 = attempt('writer(open file)', lambda: w_to(fh, objs) or True)
+        if r3 and sigs_of(p3) != seq:
+            bad('writer(open file)', 'records differ from the ones written to an in-memory file')
+        if not mrv:
+            p4 = os.path.join(d, 'w4.' + fmt)
+            if attempt('writer(append=True) second session', lambda: (w_to(p4, objs[:2]), w_to(p4, objs[2:], append=True))) and sigs_of(p4) != seq:
+                bad('writer(append=True) second session', '2 records written, 3 appended by a second writer: reading does not give the 5 records')
+            p5 = os.path.join(d, 'w5.' + fmt)
+            if attempt('writer(append=True) new file', lambda: w_to(p5, objs, append=True) or True) and sigs_of(p5) != seq:
+                bad('writer(append=True) new file', 'records differ from the ones written without append')
+            buf = io.StringIO()
+            if attempt('writer(buffer, append=True)', lambda: w_to(buf, objs, append=True) or True) and read_all(pair, buf.getvalue()) != seq:
+                bad('writer(buffer, append=True)', 'records differ from the ones written without append')
+        # ---- readers: str path, Path, open handle, FileInput / BytesIO
+        kw = {'calc_cis_trans': True}
+        path = os.path.join(d, 'f.' + fmt)
+        with open(path, 'w') as f:
+            f.write(text)
+
+        def all_of(src, close=None):
+            try:
+                return [rec_sig(O, x) for x in R(src, **kw)]
+            finally:
+                if close:
+                    close.close()
+        kinds = [('str path', lambda: all_of(path)), ('Path', lambda: all_of(Path(path)))]
+        if mrv:
+            fh = open(path, 'rb')
+            kinds += [('open binary file', lambda: all_of(fh, fh)), ('BytesIO', lambda: all_of(io.BytesIO(text.encode())))]
+        else:
+            fh = open(path)
+            fi = fileinput.input(files=[path])
+            kinds += [('open text file', lambda: all_of(fh, fh)), ('FileInput', lambda: all_of(fi, fi))]
+        for kind, fn in kinds:
+            g = attempt(f'reader({kind})', fn)
+            if g is not None and g != seq:
+                bad(f'reader({kind})', f'{len(g)} records, not the {len(seq)} of plain iteration over an in-memory file')
+        # ---- read(amount), next()
+
+        def amounts():
+            with R(path, **kw) as rd:
+                x = rd.read(2)
+                t = rd.tell()
+                y = rd.read()
+                return [rec_sig(O, z) for z in x], t, [rec_sig(O, z) for z in y], rd.tell()
+        g = attempt('read(amount)', amounts)
+        if g is not None and (g[0] != seq[:2] or g[2] != seq[2:] or g[3] != len(seq)):
+            bad('read(amount)', f'read(2) then read() give {len(g[0])} + {len(g[2])} records (tell {g[1]}, {g[3]}), not the first 2 and the remaining {len(seq) - 2}')
+
+        def nexts():
+            with R(path, **kw) as rd:
+                return [rec_sig(O, next(rd)) for _ in range(3)]
+        g = attempt('next(reader)', nexts)
+        if g is not None and g != seq[:3]:
+            bad('next(reader)', 'three next() calls do not give the first three records')
+        # ---- read_structure / read_metadata / read_block / read_mol / read_rxn record by record
+
+        def stepwise():
+            out = []
+            with R(path, **kw) as rd:
+                for i in range(len(seq)):
+                    s = rd.read_structure(current=False)
+                    s2 = rd.read_structure()
+                    md = rd.read_metadata()
+                    e = {'sig': rec_sig(O, s), 'again': rec_sig(O, s2), 'meta': O.norm_meta(md), 'own_meta': O.norm_meta(s.meta), 'tell': rd.tell()}
+                    if not mrv:
+                        blk = rd.read_block()
+                        e['block'] = read_all(pair, blk + '$$$$\n' if fmt == 'sdf' else ('$RFMT\n' if isinstance(s, ReactionContainer) else '$MFMT\n') + blk)
+                        if isinstance(s, ReactionContainer):
+                            rx = mdl_rxn(rd.read_rxn(), calc_cis_trans=True)
+                            e['parts'] = ([[_mol_sig(O, x)[0] for x in getattr(rx, r)] for r in ('reactants', 'products', 'reagents')], O.norm_title(rx.name))
+                            e['parts_expected'] = ([[_mol_sig(O, x)[0] for x in getattr(s, r)] for r in ('reactants', 'products', 'reagents')], O.norm_title(s.name))
+                            order = list(s.reactants) + list(s.products) + list(s.reagents)
+                            e['mols'] = [_mol_sig(O, mdl_mol(rd.read_mol(j), calc_cis_trans=True))[0] for j in range(len(order))]
+                            e['mols_expected'] = [_mol_sig(O, x)[0] for x in order]
+                        else:
+                            e['mols'] = [_mol_sig(O, mdl_mol(rd.read_mol() if fmt == 'sdf' else rd.read_mol(0), calc_cis_trans=True))]
+                            e['mols_expected'] = [_mol_sig(O, s)]
+                    out.append(e)
+                try:
+                    rd.read_structure(current=False)
+                    out.append('no EOFError after the last record')
+                except EOFError:
+                    pass
+            return out
+        g = attempt('record-by-record reading', stepwise)
+        for i, e in enumerate(g or []):
+            if isinstance(e, str):
+                bad('read_structure after the last record', e)
+            elif e['sig'] != seq[i]:
+                bad('read_structure(current=False)', f'call {i + 1} does not give record {i}')
+            elif e['again'] != seq[i]:
+                bad('read_structure()', f'after reading record {i} the current record is a different one')
+            elif e['meta'] != e['own_meta']:
+                bad('read_metadata()', f'record {i}: {e["meta"]!r} differs from the metadata of the structure just read {e["own_meta"]!r}', e['meta'])
+            elif e['tell'] != i + 1:
+                bad('tell()', f'{e["tell"]} after {i + 1} records')
+            elif not mrv and e['block'] != [seq[i]]:
+                bad('read_block()', f'the text of record {i}, read on its own, gives {len(e["block"])} record(s) different from record {i}')
+            elif not mrv and e.get('parts') != e.get('parts_expected'):
+                bad('read_rxn() -> mdl_rxn', f'record {i}: the reaction block gives a different reaction')
+            elif not mrv and e['mols'] != e['mols_expected']:
+                bad('read_mol() -> mdl_mol', f'record {i}: the molecule blocks (file order: reactants, products, reagents) give different molecules')
+        # ---- index: first open builds the index, second open takes it from the cache; seek / tell
+        if not mrv:
+            def indexed():
+                out = {}
+                rd = R(path, indexable=True, **kw)
+                caches.append(rd._cache_path)
+                out['len'] = len(rd)
+                out['items'] = [rec_sig(O, rd[i]) for i in (3, 0, 4)]
+                rd.seek(2)
+                out['tell'] = rd.tell()
+                out['seek'] = rec_sig(O, rd.read_structure())
+                out['seek_meta'] = O.norm_meta(rd.read_metadata())
+                rd.close()
+                rd = R(path, indexable=True, **kw)      # index from the cache file
+                out['cached'] = [rec_sig(O, rd[-1])] + [rec_sig(O, x) for x in rd[1:4]]
+                rd.close()
+                return out
+            n[0] += 1
+            try:
+                g = indexed()
+            except Exception as e:
+                g = None
+                vs.append(V(f'index:{fmt}:exc', f'index:{fmt}:exc:{where(e)}', f'{pair.split(">")[1]}(indexable=True): {where(e)} on a 5-record file written by '
+                                                                                 f'{pair.split(">")[0]}; sequential reading returns the records', wit, repr(e)))
+            if g is not None:
+                if g['len'] != len(seq):
+                    bad('len(indexable reader)', f'{g["len"]} != {len(seq)}')
+                elif g['items'] != [seq[3], seq[0], seq[4]]:
+                    bad('reader[i]', 'reader[3], reader[0], reader[4] are not records 3, 0, 4')
+                elif g['tell'] != 2 or g['seek'] != seq[2] or g['seek_meta'] != O.norm_meta(got[2].meta):
+                    bad('seek(2)', f'tell() = {g["tell"]}; read_structure() / read_metadata() after seek(2) do not give record 2')
+                elif g['cached'] != [seq[4]] + seq[1:4]:
+                    bad('index from cache', 'a second indexable reader (index loaded from the cache file) returns other records for [-1] and [1:4]')
+        # ---- write3d: conformer coordinates (molecule files): the record's constitution is the same
+        if fmt == 'sdf' and a['obj'] == 'mol':
+            m = objs[2].copy()
+            m._conformers = [{k: (at.x, at.y, 0.25 * i - 0.5) for i, (k, at) in enumerate(m.atoms())}]
+
+            def conf():
+                f = io.StringIO()
+                with W(f) as w:
+                    w.write(m, write3d=0)
+                return list(reader(pair, f.getvalue()))
+            g = attempt('write(molecule, write3d=0)', conf)
+            if g is not None and (len(g) != 1 or cmp_mol(O, m, g[0], False, a) or text_violations(O, m, g[0], pair, wit)):
+                bad('write(molecule, write3d=0)', f'record written with conformer coordinates is not read back with the same atoms / bonds / title / metadata')
+    finally:
+        shutil.rmtree(d, ignore_errors=True)
+        for c in caches:
+            if os.path.exists(c):
+                os.remove(c)
+    return vs, n[0]
+
+
+def w_api(items):
+    env.setup()
+    n, keys, samples, vs = 0, [], [], []
+    for a in items:
+        v, c = check_api(a)
+        vs.extend(v)
+        n += c
+        keys.append(f'api|{a["pair"]}|{a["obj"]}')
+        if len(samples) < 1:
+            samples.append({'contract': 'file kinds / entry points give the records of plain iteration', 'pair': a['pair'], 'records': a['obj'], 'access paths': c})
+    return n, keys, samples, vs, {}
+
+
+# --------------------------------------------------- audit extension 3: records as other programs spell them (re-spellings, hand-written)
+
+def check_foreign(a):
+    """a: {'kind': 'respell', 'smiles', 'form'} - every spec-equivalent re-spelling (oracles/o11_foreign.py) of the record the library
+    wrote for the molecule is read as the molecule; {'kind': 'files', 'pair', 'obj'} - container-level re-spellings of a 5-record
+    file; {'kind': 'hand', 'name'} - hand-written records with star atoms / ENDPTS and MRV_IMPLICIT_H S-groups"""
+    from oracles import o11_records as O, o11_foreign as F
+    from chython.files import mdl_mol, SDFRead, RDFRead, MRVRead
+    vs, n = [], 0
+    wit = {'replay': 'check_foreign', 'args': a}
+
+    def V2(variant, via, field, text, native=None):
+        if via in ('mdl_mol', 'mdl_rxn') and variant.startswith(('v3:continuation', 'v3:sgroup')):
+            variant = 'v3:continuation-line'      # one root-cause family: (string entry point, record holding a '-' continued line)
+        vs.append(V(f'foreign:{variant}:{via}:{field}', f'foreign:{variant}:{via}:{field}', text, wit, native))
+
+    if a['kind'] == 'respell':
+        m, ok2d, _ = build(a['smiles'], a['form'])
+        m.name = 'record'
+        m.meta.clear()
+        m.meta['k'] = 'v'
+        claimed = _claimed(O, m, a['form'], ok2d, a['smiles'], wit)
+        for pair, gen in (('SDFWrite>SDFRead', F.v2_variants), ('ESDFWrite>SDFRead', F.v3_variants)):
+            if max(m) > 999 and pair == 'SDFWrite>SDFRead':
+                continue
+            text = write(pair, [m])
+            cut = text.index('M  END') + 7
+            block, tail = text[:cut], text[cut:]
+            for name, new in gen(block):
+                st = claimed and 'either' not in name
+                for via, fn in (('SDFRead', lambda: list(SDFRead(io.StringIO(new + tail), calc_cis_trans=True))), ('mdl_mol', lambda: [mdl_mol(new, calc_cis_trans=True)])):
+                    n += 1
+                    try:
+                        got = fn()
+                    except Exception as e:
+                        V2(name, via, f'exc:{where(e)}', f'{via}: {where(e)} on a valid record ({name}; {a["smiles"]})', repr(e))
+                        continue
+                    if len(got) != 1:
+                        V2(name, via, 'count', f'{via}: a valid record ({name}; {a["smiles"]}) is skipped', len(got))
+                        continue
+                    for field, e, g in cmp_mol(O, m, got[0], st, a):
+                        V2(name, via, field, f'{via}: {field} of a valid record ({name}; {a["smiles"]}) read as {g!r}, the record says {e!r}', {'expected': e, 'got': g})
+                    if via == 'SDFRead':
+                        vs.extend(text_violations(O, m, got[0], pair, wit))
+        text = write('MRVWrite>MRVRead', [m])
+        for name, new in (('mrv:compact-atom-array', F.mrv_compact(text)), ('mrv:xml-declaration+namespace', F.mrv_namespaced(text))):
+            if new is None:
+                continue
+            n += 1
+            try:
+                got = list(MRVRead(io.BytesIO(new.encode()), calc_cis_trans=True))
+            except Exception as e:
+                V2(name, 'MRVRead', f'exc:{where(e)}', f'MRVRead: {where(e)} on a valid record ({name}; {a["smiles"]})', repr(e))
+                continue
+            if len(got) != 1:
+                V2(name, 'MRVRead', 'count', f'MRVRead: a valid record ({name}; {a["smiles"]}) is skipped', len(got))
+                continue
+            for field, e, g in cmp_mol(O, m, got[0], claimed, a):
+                V2(name, 'MRVRead', field, f'MRVRead: {field} of a valid record ({name}; {a["smiles"]}) read as {g!r}, the record says {e!r}', {'expected': e, 'got': g})
+            vs.extend(text_violations(O, m, got[0], 'MRVWrite>MRVRead', wit))
+    elif a['kind'] == 'files':
+        pair = a['pair']
+        fmt = P()[pair][2]
+        objs = api_objects(a['obj'])
+        text = write(pair, [x.copy() for x in objs])
+        seq = read_all(pair, text)
+        gens = list({'sdf': F.sdf_variants, 'rdf': F.rdf_variants}[fmt](text)) if fmt != 'mrv' else \
+            [('mrv:compact-atom-array', F.mrv_compact(text)), ('mrv:xml-declaration+namespace', F.mrv_namespaced(text))]
+        for name, new in gens:
+            if new is None:
+                continue
+            n += 1
+            name = f'{name}:{pair.split(">")[0]}:{a["obj"]}'
+            try:
+                got = read_all(pair, new)
+            except Exception as e:
+                V2(name, pair.split('>')[1], f'exc:{where(e)}', f'{pair.split(">")[1]}: {where(e)} on a valid file ({name})', repr(e))
+                continue
+            if got != seq:
+                lost = [i for i, s_ in enumerate(seq) if s_ not in got]
+                V2(name, pair.split('>')[1], 'records', f'{pair.split(">")[1]}: valid file ({name}): {len(got)} records read, records {lost} of {len(seq)} missing or changed',
+                   {'returned': len(got), 'lost_or_changed': lost})
+        if fmt == 'rdf' and a['obj'] == 'rxn':      # a bare RXN file handed to RDFRead (the reader's own '# RXN file' branch)
+            for i, o in enumerate(objs):
+                one = write(pair, [o.copy()])
+                rf = F.rxn_file(one)
+                n += 1
+                name = f'rdf:bare-rxn-file:{pair.split(">")[0]}'
+                try:
+                    got = read_all(pair, rf)
+                except Exception as e:
+                    V2(name, 'RDFRead', f'exc:{where(e)}', f'RDFRead: {where(e)} on a bare RXN file (record {i})', repr(e))
+                    continue
+                ref = read_all(pair, one)
+                if len(got) != 1 or got[0][:3] != ref[0][:3]:
+                    V2(name, 'RDFRead', 'records', f'RDFRead: bare RXN file (record {i}): {len(got)} record(s), not the reaction of the file', len(got))
+    else:
+        text, atoms, bonds, hs = F.HAND[a['name']]
+        for via, fn in (('SDFRead', lambda: list(SDFRead(io.StringIO(text + '$$$$\n')))), ('mdl_mol', lambda: [mdl_mol(text)]),
+                        ('RDFRead', lambda: list(RDFRead(io.StringIO('$RDFILE 1\n$DATM    01/01/26 00:00\n$MFMT\n' + text))))):
+            n += 1
+            try:
+                got = fn()
+            except Exception as e:
+                V2(a['name'], via, f'exc:{where(e)}', f'{via}: {where(e)} on a valid hand-written record ({a["name"]})', repr(e))
+                continue
+            if len(got) != 1:
+                V2(a['name'], via, 'count', f'{via}: valid hand-written record ({a["name"]}) is skipped', len(got))
+                continue
+            o = got[0]
+            ga = [(k, x.atomic_symbol, x.isotope, x.charge, bool(x.is_radical)) for k, x in o.atoms()]
+            gb = {(min(x, y), max(x, y), int(b.order)) for x, y, b in o.bonds()}
+            gh = {k: o.atom(k).implicit_hydrogens for k in hs if k in o._atoms}
+            if ga != atoms:
+                V2(a['name'], via, 'atoms', f'{via}: atoms of a hand-written record ({a["name"]}) read as {ga!r}, the record says {atoms!r}', ga)
+            elif gb != bonds:
+                V2(a['name'], via, 'bonds', f'{via}: bonds of a hand-written record ({a["name"]}): missing {sorted(bonds - gb)!r}, unexpected {sorted(gb - bonds)!r}', sorted(gb))
+            elif gh != hs:
+                V2(a['name'], via, 'hydrogens', f'{via}: hydrogen counts stated by the S-groups of ({a["name"]}) are {hs!r}, read {gh!r}', gh)
+    return vs, n
+
+
+def w_foreign(items):
+    env.setup()
+    n, keys, samples, vs = 0, [], [], []
+    for a in items:
+        if a['kind'] == 'respell':
+            try:
+                build(a['smiles'], a['form'])
+            except Exception:
+                continue
+        try:
+            v, c = check_foreign(a)
+        except LibError as e:
+            vs.append(e.args[0])
+            continue
+        vs.extend(v)
+        n += c
+        keys.append(f'foreign|{sorted(a.items())}')
+        if len(samples) < 1:
+            samples.append({'contract': 'record as another program spells it is read as what it says', **a, 'variants': c})
+    best = {}
+    for v in vs:
+        if v[0] not in best or len(repr(v[3])) < len(repr(best[v[0]][3])):
+            best[v[0]] = v
+    return n, keys, samples, list(best.values()), {}
+
+
 # ------------------------------------------------------------------------------------------------------------------ driver
 
 def chunks(xs, k):
@@ -886,6 +1519,8 @@ def bounded(run):
     mols += [(s, 'kekule', r.choice([0, 90, 400, 1500])) for s in corpus[::3] + STEREO]
     deco = decorated_smiles(r, corpus, 40 if quick else 400)
     mols += [(s, 'kekule') for s in deco] + [(s, 'aromatic') for s in COORD]
+    mols += [(s, f) for s in STEREO2 for f in ('kekule', 'kekule-rdkit2d')] + [(s, 'kekule', o) for s, o in zip(STEREO2, [90, 400, 1500] * 10)]
+    mols += [(s, 'kekule') for s in MISC2] + [(s, 'kekule-nolayout') for s in BIG + STEREO[:6]]
     # decorated atlas <= 6 nodes -> SMILES text of each decorated graph (the atlas molecules are rebuilt in the worker from text)
     atl = []
     for g, el, od, m in D.decorated_atlas(6, trials=3 if quick else 6, tag='c11-atlas', elements=('C', 'C', 'N', 'O', 'S', 'P', 'Cl')):
@@ -987,6 +1622,55 @@ def bounded(run):
               f'coordinates and wedges; V2000 additionally with the charge column blanked so that charges come from M  CHG only; records with 9-17 charged '
               f'atoms, isotopes, radicals), read by mdl_mol and SDFRead; reference = RDKit\'s own reading of the block')
 
+    # 8. audit extension: non-default options; file kinds and entry points; records as other programs spell them
+    opt_mols = STEREO[:8] + STEREO[23:26] + STEREO2[:4] + STEREO2[6:9] + ION[:6] + ION[20:] + ISO[:4] + RAD[:3] + COORD[:3] + ['[2H]C([2H])([2H])O[2H]', 'c1ccccc1', 'CC(=O)O']
+    opt_mols += corpus[:6 if quick else 150]
+    ot = []
+    for i, s in enumerate(opt_mols):
+        for j, opt in enumerate(OPTS):
+            ot.append(('mol', s, 'kekule', None if (i + j) % 3 else [90, 400, 1500][(i + j) // 3 % 3], opt))
+    rx_opt = [{'smiles': sm, 'counts': cnt, 'seed': i, 'offset': off, 'title': f'rx {i}', 'meta': {'id': str(i)}}
+              for i, ((sm, cnt), off) in enumerate(zip(FIXED_RXNS + [(['C[C@H](O)CC', 'C/C=C/C', 'CC=[C@]=CC', 'OC(=O)[C@H](N)C'], (1, 2, 1)), (['CCO'], (0, 1, 0)),
+                                                                 (['[NH4+]', '[Cl-]'], (0, 0, 2))], [0, 90, 400, 1200, 0, 7, 90, 0]))]
+    rx_opt += rx[:4 if quick else 120]
+    for a in rx_opt:
+        for opt in OPTS:
+            ot.append(('rxn', a, opt))
+    for c in chunks(ot, 10):
+        tasks.append((w_opts, c))
+    run.bound(f'options: {len(opt_mols)} molecules (fixed: configuration incl. dependent centres / allenes / ring cumulenes, charges +-4, isotopes, radicals, '
+              f'coordinate bonds; + seeded corpus) and {len(rx_opt)} reactions (fixed: with / without reagents, product-only, reagent-only, numbers shifted by 0/7/90/400/1200; '
+              f'+ seeded) x {len(OPTS)} options ({", ".join(OPTS)}) x 5 / 3 pairs + mdl_mol / mdl_rxn with the same keywords; a third of the molecules with permuted shifted numbers')
+    for pair, spec in P().items():
+        for obj in ('mol', 'rxn'):
+            if obj == 'rxn' and not spec[4]:
+                continue
+            tasks.append((w_api, [{'pair': pair, 'obj': obj}]))
+            tasks.append((w_foreign, [{'kind': 'files', 'pair': pair, 'obj': obj}]))
+    run.bound('file kinds / entry points: one fixed 5-record file per pair and record type (records with different metadata key sets, one without metadata, one '
+              'without title): writers given str path / Path / open file / append=True (second session, new file, buffer); readers given str path / Path / open file / '
+              'FileInput (MRV: binary file, BytesIO); read(amount), next(), read_structure(current) / read_metadata / read_block / read_mol / read_rxn + mdl_mol / mdl_rxn '
+              'record by record, EOFError at the end; indexable reader built fresh and from its cache file, seek / tell; write3d=0 (constitution only)')
+    from oracles import o11_foreign as F
+    fm = STEREO[:6] + STEREO[23:25] + STEREO2[:2] + ION + ISO + RAD + COORD + MISC2[:12] + ['[2H]C([2H])([2H])O[2H]', '[Na+].[Cl-].[13CH4].[CH3].[Fe+4].[O-2].[2H]O[2H]',
+                                                                                        '.'.join(['[Na+]', '[Cl-]', '[13CH4]', '[CH3]'] * 5)]
+    fm += corpus[:8 if quick else 200]
+    ft = [{'kind': 'respell', 'smiles': s, 'form': 'kekule'} for s in fm] + [{'kind': 'hand', 'name': k} for k in F.HAND]
+    for c in chunks(ft, 8):
+        tasks.append((w_foreign, c))
+    run.bound(f'records as other programs spell them: {len(fm)} molecules (fixed + seeded corpus) written by the library and re-spelled without changing their content '
+              f'(V2000: properties merged 8 / 3 per line with blank charge column, D symbol, mass-difference column, bond type 9, either marks, chiral flag + short bond '
+              f'lines; V3000: "-" continuation at a token boundary / inside a token / twice, D symbol, bond types 9 and 10, CFG=2, skippable properties; MRV: compact '
+              f'atom-array attribute lists, XML declaration + namespace), read by SDFRead and mdl_mol / MRVRead; container level on one 5-record file per pair and record '
+              f'type (SDF: last record without $$$$, "> <k>" headers; RDF: $RIREG/$MIREG record lines, no $RDFILE header, $DATUM value on the next line, '
+              f'bare RXN file); {len(F.HAND)} hand-written records (V3000 star atoms + ENDPTS: last / first / middle / 5 endpoints / with atom-atom mapping; MRV_IMPLICIT_H '
+              f'S-groups V2000 and V3000) read by SDFRead, mdl_mol, RDFRead against hand-written expectations')
+    run.assume('oracles/o11_foreign.py: the re-spellings are content-preserving by the CTfile / RDfile / Marvin documents; the expectations of the hand-written records '
+               '(multi-centre bond = one coordinate bond, order 8, from the attached atom to every endpoint - the reading the library documents in its log lines)',
+               'writer mapping=False / reader remap=True ask for new atom numbers: compared after renumbering the written molecule by file position; for reactions '
+               'under remap the written -> read number map has to be one injective function over the whole reaction (the atom-to-atom mapping) starting from 1',
+               'component titles of a reaction are not compared (V3000 reaction files have no slot for them)')
+
     run.assume('RDKit (MolFromSmiles, MolToMolBlock, Compute2DCoords, wedging) is a trusted external writer of valid MDL records',
                'the 2D layout of clean2d() is a valid depiction (distinct atom positions); molecules for which clean2d() fails are compared without configuration',
                'the expected label of a stereogenic double bond the written molecule leaves unlabelled is the one its 2D coordinates define '
@@ -1004,7 +1688,7 @@ def bounded(run):
                'a damaged record keeps its delimiter; MRV damage keeps the XML well-formed (a file that is not XML cannot be split into records)',
                'constitutional-symmetry oracle oracles.iso.orbits for the documented canonical-string gaps (RDKit-written part only)')
 
-    only = getattr(run, 'only', None)      # development: bin/check C11 --only mols,rxns,meta,multi,index,testfiles,rdkit
+    only = getattr(run, 'only', None)      # development: bin/check C11 --only B,mols,rxns,meta,multi,index,testfiles,rdkit,opts,api,foreign
     only = set(only or ()) - {'P', 'T', 'F', 'H', 'B', 'X'}      # engine letters select parts of the check, not task kinds
     if only:
         tasks = [t for t in tasks if t[0].__name__[2:] in only]
@@ -1048,7 +1732,8 @@ def _dispatch(t):
 
 REPLAY = {'check_mol': lambda a: check_mol(a)[0], 'check_rxn': lambda a: check_rxn(a)[0], 'check_meta': check_meta,
           'check_damaged': check_damaged, 'check_index': lambda a: check_index(a)[0], 'check_testfile': lambda a: check_testfile(a)[0],
-          'check_rdkit_block': lambda a: check_rdkit_block(a)[0]}
+          'check_rdkit_block': lambda a: check_rdkit_block(a)[0], 'check_opt_mol': lambda a: check_opt_mol(a)[0], 'check_opt_rxn': lambda a: check_opt_rxn(a)[0],
+          'check_api': lambda a: check_api(a)[0], 'check_foreign': lambda a: check_foreign(a)[0]}
 
 
 def replay(rec):
@@ -1061,7 +1746,10 @@ def replay(rec):
     a = w['args']
     if isinstance(a.get('counts'), list):
         a['counts'] = tuple(a['counts'])
-    vs = fn(a)
+    try:
+        vs = fn(a)
+    except LibError as e:
+        vs = [e.args[0]]
     for v in vs or []:
         print('  still:', v[2][:300])
     return not vs
